@@ -397,17 +397,17 @@ def headerLoop (o : Opts) (cont : Option Path) : Nat → PS → List (Option Str
       let e ← match cont with
         | none => pure false
         | some path => itemExists o path name
-      let verdict : Option Code :=
-        if e then some CIF_DUP_ITEMNAME
-        else match findHeaderName o slots name with
-          | some true => some CIF_INVALID_ITEMNAME
-          | some false => some CIF_DUP_ITEMNAME
-          | none => none
-      match verdict with
-      | some code => do
-        report code s.scan.line (s.scan.col - t.text.length)
+      if e then do
+        report CIF_DUP_ITEMNAME s.scan.line (s.scan.col - t.text.length)
         headerLoop o cont fuel (consume s) (slots ++ [none])
-      | none => headerLoop o cont fuel (consume s) (slots ++ [some name])
+      else match findHeaderName o slots name with
+        | some true => do
+          report CIF_INVALID_ITEMNAME s.scan.line (s.scan.col - t.text.length)
+          headerLoop o cont fuel (consume s) (slots ++ [none])
+        | some false => do
+          report CIF_DUP_ITEMNAME s.scan.line (s.scan.col - t.text.length)
+          headerLoop o cont fuel (consume s) (slots ++ [none])
+        | none => headerLoop o cont fuel (consume s) (slots ++ [some name])
     else pure (slots, s)
 
 /-- state of parse_loop_packets -/
@@ -496,13 +496,13 @@ def createIn (o : Opts) (isBlock : Bool) (parent : Path) (code : Str) (line col 
   let add : P Unit :=
     if isBlock then setCif (cif ++ [Container.mk code [] []])
     else setCif (updIn o.norm (fun c => Container.mk c.code (c.frames ++ [Container.mk code [] []]) c.loops) parent cif)
-  let invalidCode := if isBlock then CIF_INVALID_BLOCKCODE else CIF_INVALID_FRAMECODE
-  let dupCode := if isBlock then CIF_DUP_BLOCKCODE else CIF_DUP_FRAMECODE
+  let reportInvalid : P Unit := if isBlock then report CIF_INVALID_BLOCKCODE line col else report CIF_INVALID_FRAMECODE line col
+  let reportDup : P Unit := if isBlock then report CIF_DUP_BLOCKCODE line col else report CIF_DUP_FRAMECODE line col
   if !isValidName false code then do
-    report invalidCode line col
+    reportInvalid
     -- recover by using the code anyway (lenient creation)
-    if exists_ then report dupCode line col else add
-  else if exists_ then report dupCode line col          -- recover by reopening the existing container
+    if exists_ then reportDup else add
+  else if exists_ then reportDup          -- recover by reopening the existing container
   else add
   pure (parent ++ [k])
 
@@ -561,20 +561,19 @@ mutual
         let name := cstr t.text
         let s := consume s
         -- cif_container_get_item_loop, then (for CIF_NOSUCH_ITEM) the validity of the name — only with a container
-        let verdict : Option Code ← match cont with
-          | none => pure none
-          | some path => do
-            let e ← itemExists o path name
-            if e then pure (some CIF_DUP_ITEMNAME)
-            else if !isValidName true name then pure (some CIF_INVALID_ITEMNAME)
-            else pure none
-        match verdict with
-        | some code => do
-          report code s.scan.line s.scan.col
+        let e ← match cont with
+          | none => pure false
+          | some path => itemExists o path name
+        if e then do
+          report CIF_DUP_ITEMNAME s.scan.line s.scan.col
           -- recover by rejecting the item (but still parsing the associated value)
           let s ← parseItem o fuel s cont none
           elemsLoop o fuel s cont isBlock
-        | none => do
+        else if cont.isSome ∧ !isValidName true name then do
+          report CIF_INVALID_ITEMNAME s.scan.line s.scan.col
+          let s ← parseItem o fuel s cont none
+          elemsLoop o fuel s cont isBlock
+        else do
           let s ← parseItem o fuel s cont (some name)
           elemsLoop o fuel s cont isBlock
       | .key | .tkey => do
